@@ -116,6 +116,7 @@ func (*PHQ) isAB()    {}
 func (*PHQ) Primary() {}
 
 type ProviderKind struct {
+	NoName  bool // the type has no Naming method: at most one (unnamed) instance
 	Name    string
 	HasQual bool
 	HasComp bool // Comp() string
@@ -123,17 +124,17 @@ type ProviderKind struct {
 }
 
 var ProviderKinds = []ProviderKind{
-	{"PA", false, false, func(b *Beh) any { c := &PA{PCore{b}}; b.Self = c; return c }},
-	{"PA2", false, false, func(b *Beh) any { c := &PA2{PCore{b}}; b.Self = c; return c }},
-	{"PB", true, false, func(b *Beh) any { c := &PB{QCore{PCore{b}}}; b.Self = c; return c }},
-	{"PC", true, false, func(b *Beh) any { c := &PC{QCore{PCore{b}}}; b.Self = c; return c }},
-	{"PD", true, false, func(b *Beh) any { c := &PD{QCore{PCore{b}}}; b.Self = c; return c }},
-	{"PE", false, true, func(b *Beh) any { c := &PE{PCore{b}}; b.Self = c; return c }},
-	{"PF", true, false, func(b *Beh) any { c := &PF{QCore{PCore{b}}}; b.Self = c; return c }},
-	{"PG", true, true, func(b *Beh) any { c := &PG{QCore{PCore{b}}}; b.Self = c; return c }},
-	{"PH", true, false, func(b *Beh) any { c := &PH{QCore: QCore{PCore{b}}}; b.Self = c; return c }},
-	{"PHR", true, false, func(b *Beh) any { c := &PHR{QCore: QCore{PCore{b}}}; b.Self = c; return c }},
-	{"PHQ", true, false, func(b *Beh) any { c := &PHQ{QCore: QCore{PCore{b}}}; b.Self = c; return c }},
+	{Name: "PA", HasQual: false, HasComp: false, New: func(b *Beh) any { c := &PA{PCore{b}}; b.Self = c; return c }},
+	{Name: "PA2", HasQual: false, HasComp: false, New: func(b *Beh) any { c := &PA2{PCore{b}}; b.Self = c; return c }},
+	{Name: "PB", HasQual: true, HasComp: false, New: func(b *Beh) any { c := &PB{QCore{PCore{b}}}; b.Self = c; return c }},
+	{Name: "PC", HasQual: true, HasComp: false, New: func(b *Beh) any { c := &PC{QCore{PCore{b}}}; b.Self = c; return c }},
+	{Name: "PD", HasQual: true, HasComp: false, New: func(b *Beh) any { c := &PD{QCore{PCore{b}}}; b.Self = c; return c }},
+	{Name: "PE", HasQual: false, HasComp: true, New: func(b *Beh) any { c := &PE{PCore{b}}; b.Self = c; return c }},
+	{Name: "PF", HasQual: true, HasComp: false, New: func(b *Beh) any { c := &PF{QCore{PCore{b}}}; b.Self = c; return c }},
+	{Name: "PG", HasQual: true, HasComp: true, New: func(b *Beh) any { c := &PG{QCore{PCore{b}}}; b.Self = c; return c }},
+	{Name: "PH", HasQual: true, HasComp: false, New: func(b *Beh) any { c := &PH{QCore: QCore{PCore{b}}}; b.Self = c; return c }},
+	{Name: "PHR", HasQual: true, HasComp: false, New: func(b *Beh) any { c := &PHR{QCore: QCore{PCore{b}}}; b.Self = c; return c }},
+	{Name: "PHQ", HasQual: true, HasComp: false, New: func(b *Beh) any { c := &PHQ{QCore: QCore{PCore{b}}}; b.Self = c; return c }},
 }
 
 // PN: several instances (distinguished only by custom names) wire each other by name.
@@ -156,7 +157,27 @@ func (*PNR) isA() {}
 
 func init() {
 	ProviderKinds = append(ProviderKinds,
-		ProviderKind{"PN", true, false, func(b *Beh) any { c := &PN{QCore: QCore{PCore{b}}}; b.Self = c; return c }},
-		ProviderKind{"PNR", true, false, func(b *Beh) any { c := &PNR{QCore: QCore{PCore{b}}}; b.Self = c; return c }},
+		ProviderKind{Name: "PN", HasQual: true, New: func(b *Beh) any { c := &PN{QCore: QCore{PCore{b}}}; b.Self = c; return c }},
+		ProviderKind{Name: "PNR", HasQual: true, New: func(b *Beh) any { c := &PNR{QCore: QCore{PCore{b}}}; b.Self = c; return c }},
+	)
+}
+
+// Zero-size providers: distinct components whose pointers share one address (the Go runtime gives
+// every zero-size allocation the same address), so identity by address alone cannot tell them apart.
+type IZst interface{ isZst() }
+
+type PZ1 struct{}
+type PZ2 struct{}
+type PZ3 struct{}
+
+func (*PZ1) isZst() {}
+func (*PZ2) isZst() {}
+func (*PZ3) isZst() {}
+
+func init() {
+	ProviderKinds = append(ProviderKinds,
+		ProviderKind{Name: "PZ1", NoName: true, New: func(b *Beh) any { return &PZ1{} }},
+		ProviderKind{Name: "PZ2", NoName: true, New: func(b *Beh) any { return &PZ2{} }},
+		ProviderKind{Name: "PZ3", NoName: true, New: func(b *Beh) any { return &PZ3{} }},
 	)
 }
